@@ -434,10 +434,7 @@ Proof.
       * eapply inv_pc_update; [exact HI0 | apply pcu_finish | exact N0 | reflexivity].
     + destruct (closed s); inversion H; subst.
       * eapply inv_pc_update; [exact HI0 | apply pcu_finish | exact N0 | reflexivity].
-      * apply inv_qp with (s := s0) (s1 := set_table s0 (next_sid s + 1) (table s ++ [(next_sid s, t)])) (t := t)
-                          (p := PO1 (next_sid s)); auto.
-        -- quiet_refl_like.
-        -- apply pcu_set_task.
+      * eapply inv_pc_update; [exact HI0 | apply pcu_set_task | exact N0 | reflexivity].
     + destruct (t_sid (with_prog (tasks s t) rest)); [destruct (t_verdict (with_prog (tasks s t) rest))|];
         inversion H; subst; (eapply inv_pc_update; [exact HI0 | apply pcu_finish | exact N0 | reflexivity]).
     + destruct (t_sid (with_prog (tasks s t) rest)); [destruct (t_verdict (with_prog (tasks s t) rest))|];
@@ -517,6 +514,13 @@ Proof.
     + rewrite <- Ewr. apply inv_enqueue; auto. congruence.
     + eapply inv_qp with (s := s) (s1 := set_shut s); [exact HI | quiet_refl_like | apply pcu_finish_close | exact N | reflexivity].
   - discriminate.
+  - (* PO0 *)
+    assert (neutral (pcof s t) = true) as N by (unfold pcof; rewrite Epc; reflexivity).
+    inversion H; subst.
+    apply inv_qp with (s := s) (s1 := set_table s (next_sid s + 1) (table s ++ [(next_sid s, t)])) (t := t)
+                      (p := PO1 (next_sid s)); auto.
+    + quiet_refl_like.
+    + apply pcu_set_task.
   - (* PO1 *)
     assert (neutral (pcof s t) = true) as N by (unfold pcof; rewrite Epc; reflexivity).
     inversion H; subst. eapply inv_pc_update; [exact HI | apply pcu_set_task | exact N | reflexivity].
